@@ -64,6 +64,17 @@ theorem bigExp_natCast (a b : Nat) : bigExp (a : Int) (b : Int) = ((a ^ b : Nat)
   · subst h; rfl
   · rw [if_neg (by omega), Int.toNat_natCast, Int.natCast_pow]
 
+/-- modular exponentiation of two unsigned words with the modulus `1 << 256` -/
+theorem bigExpMod_natCast (a b : Nat) :
+    bigExpMod (a : Int) (b : Int) (bigLsh (1 : Int) 256) = some (((a ^ b % 2 ^ 256 : Nat) : Int)) := by
+  have hm : bigLsh (1 : Int) 256 = ((2 ^ 256 : Nat) : Int) := by decide
+  have hne : ¬ (((2 ^ 256 : Nat) : Int) = 0) := by decide
+  have hy : ¬ ((b : Int) < 0) := by omega
+  simp only [bigExpMod, hm, hne, hy, if_false, Int.natAbs_natCast, Int.toNat_natCast, ← Int.natCast_pow, ← Int.natCast_emod]
+
+theorem bigIsUint64_natCast (n : Nat) : bigIsUint64 (n : Int) = true ↔ n < 2 ^ 64 := by
+  unfold bigIsUint64; simp only [decide_eq_true_eq]; omega
+
 /-- Burrow's `SignExtend(x, n)` (for a non-negative `x`) is the balanced remainder modulo `2^n` -/
 theorem signExtend_eq_bmod (x n : Nat) (hn : 0 < n) : signExtend (x : Int) n = Int.bmod x (2 ^ n) := by
   obtain ⟨k, rfl⟩ : ∃ k, n = k + 1 := ⟨n - 1, by omega⟩
